@@ -38,7 +38,7 @@ def _adj_of(graph):
 
 
 def _is_simple_np(m, n):
-    return m.shape == (n, n) and m.dtype == np.int8 and np.array_equal(m, m.T) and not np.diag(m).any() and set(np.unique(m)) <= {0, 1}
+    return m.shape == (n, n) and m.dtype.kind in "iub" and np.array_equal(m, m.T) and not np.diag(m).any() and set(np.unique(m)) <= {0, 1}
 
 
 def chunk_graphs(args):
